@@ -162,6 +162,7 @@ def ex_gridded(ctx, case, ratesB, seed=0, quad=None):
     ncell = rates.shape[0]
     positive = bool((rates > 0).all() and (numpy.array(ratesB) > 0).all())
     rc0 = {"exec": "gridded", "args": {"case": case, "ratesB": ratesB, "seed": seed, "quad": quad}}
+    ctx.current_case = rc0
     w = numpy.zeros(rates.shape)
     numpy.add.at(w, (numpy.asarray(case["ev_cell"], dtype=int), numpy.asarray(case["ev_mag"], dtype=int)), 1)
     n_act = int((w > 0).sum())
@@ -220,6 +221,7 @@ def ex_catalog(ctx, fc, seed=0):
     rng = numpy.random.default_rng([seed, 21])
     tmp = tempfile.mkdtemp(prefix="c20-", dir=os.environ.get("VERIF_TMP", "/var/tmp"))
     rc = {"exec": "catalog", "args": {"fc": fc, "seed": seed}}
+    ctx.current_case = rc
     tests = [("catalog.N", ce.number_test, {"verbose": False}, "free"), ("catalog.S", ce.spatial_test, {"verbose": False}, "free"),
              ("catalog.M", ce.magnitude_test, {"verbose": False}, "free"), ("catalog.PL", ce.pseudolikelihood_test, {"verbose": False}, "free"),
              ("catalog.RM", ce.resampled_magnitude_test, {"seed": seed}, "sim"), ("catalog.MLL", ce.MLL_magnitude_test, {"seed": seed}, "sim")]
@@ -308,6 +310,7 @@ def ex_file_order(ctx, case11, seed=0):
     if ncell < 2:
         return
     rc = {"exec": "file_order", "args": {"case11": case11, "seed": seed}}
+    ctx.current_case = rc
     tmp = tempfile.mkdtemp(prefix="c20f-", dir=os.environ.get("VERIF_TMP", "/var/tmp"))
     try:
         flags = lat.get("flags") or [1] * ncell
